@@ -3,17 +3,70 @@
   symbol type words, multi-service packing.
 -/
 import PycommModel.Logix.Kernels
+import PycommProofs.LBBasic
+import PycommProofs.LBMulti
 namespace Pycomm.Lgx.K
+open Pycomm.LB
 
 /-- the value the last write to bit i asks for, if any -/
 def lastOp (ops : List (Nat × Bool)) (i : Nat) : Option Bool :=
   (ops.reverse.find? (fun o => o.1 == i)).map (·.2)
 
+
+/-! ### helper lemmas: the mask invariant -/
+
+/-- invariant of the mask construction: below bit 64, the OR mask has exactly the bits last written true and
+    the AND mask lacks exactly the bits last written false -/
+def Good (ops : List (Nat × Bool)) (m : Masks) : Prop :=
+  ∀ i, i < 64 → (m.orM.testBit i = (lastOp ops i == some true)) ∧ (m.andM.testBit i = !(lastOp ops i == some false))
+
+theorem lastOp_snoc (ops : List (Nat × Bool)) (b : Nat) (v : Bool) (i : Nat) :
+    lastOp (ops ++ [(b, v)]) i = if b = i then some v else lastOp ops i := by
+  unfold lastOp
+  by_cases h : b = i <;> simp [List.reverse_append, h]
+
+theorem ones64_testBit (i : Nat) : ones64.testBit i = decide (i < 64) := allOnes_testBit 64 i
+
+theorem good_init : Good [] initMasks := by
+  intro i hi
+  simp [lastOp, initMasks, ones64_testBit, hi]
+
+theorem setBit_good (ops : List (Nat × Bool)) (m : Masks) (b : Nat) (v : Bool) (h : Good ops m) :
+    Good (ops ++ [(b, v)]) (setBit m b v) := by
+  intro i hi
+  obtain ⟨h1, h2⟩ := h i hi
+  rw [lastOp_snoc]
+  by_cases hbi : b = i
+  · subst hbi
+    cases v <;>
+      simp only [setBit, Bool.false_eq_true, ↓reduceIte, Nat.testBit_or, Nat.testBit_and, Nat.testBit_xor, ones64_testBit, one_shl_testBit] <;>
+      simp [hi]
+  · have hib : ¬ i = b := fun e => hbi e.symm
+    cases v <;>
+      simp only [setBit, Bool.false_eq_true, ↓reduceIte, Nat.testBit_or, Nat.testBit_and, Nat.testBit_xor, ones64_testBit, one_shl_testBit] <;>
+      simp [hi, hbi, hib, h1, h2]
+
+theorem foldl_good (ops pre : List (Nat × Bool)) (m : Masks) (h : Good pre m) :
+    Good (pre ++ ops) (ops.foldl (fun m o => setBit m o.1 o.2) m) := by
+  induction ops generalizing pre m with
+  | nil => simpa using h
+  | cons o ops ih =>
+    have := ih (pre ++ [(o.1, o.2)]) (setBit m o.1 o.2) (setBit_good pre m o.1 o.2 h)
+    simpa using this
+
+theorem applyOps_good (ops : List (Nat × Bool)) : Good ops (applyOps ops) := by
+  have := foldl_good ops [] initMasks good_init
+  simpa [applyOps] using this
+
+theorem rmw_testBit (w old : Nat) (m : Masks) (hw : w ≤ 8) (i : Nat) (hi : i < 8 * w) :
+    (rmwResult w old m).testBit i = ((old.testBit i || m.orM.testBit i) && m.andM.testBit i) := by
+  simp [rmwResult, leVal_maskBytes _ _ hw, Nat.testBit_and, Nat.testBit_or, Nat.testBit_mod_two_pow, hi]
+
 -- PROPERTY THEOREMS
 
 /-- both masks have exactly the announced size -/
 theorem mask_bytes_size (w m : Nat) (hw : w ≤ 8) : (maskBytes w m).length = w := by
-  sorry
+  simp [maskBytes, EN.leBytes_length]; omega
 
 /-- Read-modify-write law: for an integer of w ∈ {1,2,4,8} bytes and any list of bit writes inside it, the
     controller's result has, in every bit, the last value written to that bit if any, else the old bit:
@@ -24,61 +77,142 @@ theorem rmw_law (w : Nat) (hw : w = 1 ∨ w = 2 ∨ w = 4 ∨ w = 8) (ops : List
       match lastOp ops i with
       | some v => v
       | none => old.testBit i := by
-  sorry
+  have _ := hb; have _ := ho
+  have hw8 : w ≤ 8 := by omega
+  have hg := applyOps_good ops
+  obtain ⟨h1, h2⟩ := hg i (by omega)
+  rw [rmw_testBit w old _ hw8 i hi, h1, h2]
+  cases hl : lastOp ops i with
+  | none => simp
+  | some v => cases v <;> simp
 
 /-- and nothing above the integer's width is produced -/
 theorem rmw_in_range (w : Nat) (hw : w = 1 ∨ w = 2 ∨ w = 4 ∨ w = 8) (ops : List (Nat × Bool)) (old : Nat)
     (ho : old < 2 ^ (8 * w)) : rmwResult w old (applyOps ops) < 2 ^ (8 * w) := by
-  sorry
+  have _ := ho
+  have hw8 : w ≤ 8 := by omega
+  unfold rmwResult
+  apply Nat.and_lt_two_pow
+  rw [leVal_maskBytes _ _ hw8]
+  exact Nat.mod_lt _ (Nat.two_pow_pos _)
 
 /-- BOOL arrays: index arithmetic -/
 theorem bool_index (idx : Nat) : idx = 32 * (idx / 32) + idx % 32 ∧ idx % 32 < 32 := by
-  sorry
+  omega
 
 /-- a read of bits [idx, idx+n) asks for exactly enough DWORDs from the start of the array to contain the range,
     and not one more -/
 theorem bool_read_window (idx n : Nat) (hn : 0 < n) :
     let e := (boolWindow false idx n).2.2
     idx + n ≤ 32 * e ∧ 32 * (e - 1) < idx + n ∧ (boolWindow false idx n).1 = 0 := by
-  sorry
+  simp only [boolWindow, Bool.false_eq_true, if_false]
+  split <;> refine ⟨?_, ?_, trivial⟩ <;> omega
 
 /-- the requested bits are the slice [idx, idx+n) of the bits of those DWORDs -/
 theorem bool_read_slice (ws : List Nat) (idx n : Nat) (h : idx + n ≤ 32 * ws.length) (j : Nat) (hj : j < n) :
     (((dwordBits ws).drop idx).take n).getD j false = (ws.getD ((idx + j) / 32) 0).testBit ((idx + j) % 32) := by
-  sorry
+  have _ := h
+  rw [List.getD_eq_getElem?_getD, List.getElem?_take, if_pos hj, List.getElem?_drop, dwordBits_getElem?]
 
 /-- an aligned write (idx and n multiples of 32) addresses DWORD idx/32 and writes exactly n/32 DWORDs -/
 theorem bool_write_aligned (idx n : Nat) (hi : idx % 32 = 0) (hn : n % 32 = 0) (hpos : 0 < n) :
     (boolWindow true idx n).1 = idx / 32 ∧ writeElements idx n = n / 32 := by
-  sorry
+  simp only [writeElements, boolWindow, if_true]
+  have : (idx + n) % 32 = 0 := by omega
+  rw [if_pos this]
+  exact ⟨trivial, by omega⟩
 
 /-- symbol type word: structure flag, dimension count, template id / atomic code and BOOL bit position are
     recovered from a word assembled from them -/
 theorem typeword_struct (dims tid : Nat) (hd : dims < 4) (ht : tid < 4096) :
     decodeTypeWord (32768 + 8192 * dims + tid) =
       { isStruct := true, dims := dims, templateId := tid, atomicCode := tid % 256, boolBit := tid / 256 % 8 } := by
-  sorry
+  simp only [decodeTypeWord]
+  congr 1
+  · simp; omega
+  · omega
+  · omega
+  · omega
+  · omega
 
 theorem typeword_atomic (dims code bit : Nat) (hd : dims < 4) (hc : code < 256) (hb : bit < 8) :
     let t := decodeTypeWord (8192 * dims + 256 * bit + code)
     t.isStruct = false ∧ t.dims = dims ∧ t.atomicCode = code ∧ t.boolBit = bit := by
-  sorry
+  simp only [decodeTypeWord]
+  refine ⟨?_, ?_, ?_, ?_⟩
+  · simp; omega
+  · omega
+  · omega
+  · omega
 
 theorem alias_flag (sc : Nat) : isAlias sc = true ↔ ¬ (sc / 2 ^ 26 % 2 = 1) := by
-  sorry
+  simp only [isAlias, decide_eq_true_eq]
+  omega
 
 /-- multi-service: what the client packs is unpacked by the reference target into exactly the embedded
     messages (count, offset table from the count field, messages back to back) -/
 theorem target_unpacks_packed (msgs : List Bytes) (hne : msgs ≠ []) (hm : ∀ m ∈ msgs, m ≠ [])
     (hsz : 2 + 2 * msgs.length + (msgs.map (·.length)).foldl (· + ·) 0 < 65536) :
     parseMulti (packMulti msgs) = some msgs := by
-  sorry
+  rw [offOf_total] at hsz
+  have hn : msgs.length < 65536 := by unfold offOf at hsz; omega
+  have hpos : 0 < msgs.length := List.length_pos_iff.mpr hne
+  have hlen := packMulti_length msgs
+  have hge : 2 + 2 * msgs.length ≤ offOf msgs msgs.length := by unfold offOf; omega
+  unfold parseMulti
+  simp only [Tgt.leAt, List.drop_zero]
+  rw [packMulti_count msgs hn, packMulti_offs msgs hsz, hlen, ends_eq _ _ hpos, List.zip_map']
+  rw [if_neg (by omega), if_neg (by omega), if_neg (by omega)]
+  have h0 : ((List.range msgs.length).map (offOf msgs)).headD 0 = 2 + 2 * msgs.length := by
+    cases hmm : msgs with
+    | nil => exact absurd hmm hne
+    | cons m ms => simp [List.range_succ_eq_map, offOf, psum]
+  rw [if_neg (by rw [h0]; simp)]
+  have hany : ((List.range msgs.length).map fun i => (offOf msgs i, offOf msgs (i + 1))).any
+      (fun p => decide (p.1 ≥ p.2)) = false := by
+    rw [List.any_eq_false]
+    intro p hp
+    simp only [List.mem_map, List.mem_range] at hp
+    obtain ⟨i, hi, rfl⟩ := hp
+    have := hm msgs[i] (by simp)
+    have : 0 < msgs[i].length := List.length_pos_iff.mpr this
+    rw [offOf_succ msgs i hi]
+    simp; omega
+  rw [hany]
+  simp only [Bool.false_eq_true, if_false, List.map_map, Option.some.injEq]
+  apply List.ext_getElem
+  · simp
+  · intro i h1 h2
+    simp only [List.getElem_map, List.getElem_range, Function.comp]
+    rw [offOf_succ msgs i h2, Nat.add_sub_cancel_left, packMulti_seg msgs i h2]
 
 /-- and the client splits a reply laid out the same way into exactly the per-request replies, the i-th reply
     answering the i-th request -/
 theorem client_unpacks_packed (reps : List Bytes) (hne : reps ≠ [])
     (hsz : 2 + 2 * reps.length + (reps.map (·.length)).foldl (· + ·) 0 < 65536) :
     unpackMulti (packMulti reps) = reps := by
-  sorry
+  have _ := hne
+  rw [offOf_total] at hsz
+  have hn : reps.length < 65536 := by unfold offOf at hsz; omega
+  unfold unpackMulti
+  simp only []
+  rw [packMulti_count reps hn, packMulti_offs reps hsz]
+  apply List.ext_getElem
+  · simp
+  · intro i h1 h2
+    simp only [List.getElem_map, List.getElem_range, List.length_map, List.length_range]
+    have ho : ((List.range reps.length).map (offOf reps)).getD i 0 = offOf reps i := by
+      simp [List.getD_eq_getElem?_getD, h2]
+    rw [ho]
+    by_cases hl : i + 1 < reps.length
+    · have he : (((List.range reps.length).map (offOf reps)).drop 1)[i]? = some (offOf reps (i + 1)) := by
+        simp [hl]
+      rw [he]
+      simp only []
+      rw [List.drop_take, offOf_succ reps i h2, Nat.add_sub_cancel_left, packMulti_seg reps i h2]
+    · have he : (((List.range reps.length).map (offOf reps)).drop 1)[i]? = none := by
+        simp; omega
+      rw [he]
+      exact packMulti_last reps i (by omega)
 
 end Pycomm.Lgx.K
